@@ -9,6 +9,8 @@ use emulator_2a_lib::machine::{Machine, State, StepMode};
 /// more edges than any instruction (DIV 255/1: 515 steps) plus an interrupt entry can take
 pub const STALL_LIMIT: i64 = 1200;
 
+pub static TRACE: std::sync::atomic::AtomicBool = std::sync::atomic::AtomicBool::new(false);
+
 #[derive(Clone, Copy, Debug, PartialEq, Eq)]
 pub enum Ended {
     /// the machine halted and the reference agrees
@@ -169,6 +171,7 @@ impl LockStep {
         rb.int_ff = s & 2 != 0;
         rb.source_flag = s & 1 != 0;
         self.rf.iff = self.sut.signals().interrupt_flipflop_1();
+        self.rf.iff_unknown = false;
         self.rf.state = rstate_of(self.sut.state());
         self.unspec_count += 1;
     }
@@ -259,20 +262,31 @@ impl LockStep {
         if !info.samples {
             if any {
                 self.rf.iff = true;
+                self.rf.iff_unknown = false;
             }
             return Ok(());
         }
-        let iff0 = self.rf.iff || any;
+        let known_set = (self.rf.iff && !self.rf.iff_unknown) || any;
         let ie = self.rf.fr & F_IE != 0;
-        if iff0 && ie {
+        if known_set && ie {
             let c_e = Ref::entry_cost(self.rf.sp) as i64;
             let s1 = if self.asm() || !self.cost_valid { i64::MAX } else { b - c_e };
-            let iff1 = self.rf.iff || self.presses.iter().any(|p| p.1 && p.0 <= s1);
-            if iff1 {
+            let iff1 = (self.rf.iff && !self.rf.iff_unknown) || self.presses.iter().any(|p| p.1 && p.0 <= s1);
+            if iff1 || self.rf.iff_unknown {
+                // (if only a possibly-forgotten press precedes the sampling edge, taking the interrupt
+                // is still one of the two allowed outcomes; the state comparison decides)
+                let late = self.presses.iter().any(|p| p.1 && p.0 > s1);
+                if !iff1 && !self.sut_took_interrupt() {
+                    // the held-or-forgotten press was forgotten; the fresh press came after the sampling edge
+                    self.rf.iff = true;
+                    self.rf.iff_unknown = false;
+                    return Ok(());
+                }
                 self.rf.iff = false;
+                self.rf.iff_unknown = false;
                 self.rf.enter_interrupt(info);
                 self.entries += 1;
-                if self.presses.iter().any(|p| p.1 && p.0 > s1) {
+                if late {
                     self.rf.iff = true;
                 }
             } else {
@@ -287,11 +301,30 @@ impl LockStep {
                     ),
                 ));
             }
-        } else {
-            // flip-flop is cleared at every sampling instruction end (dropped when IE is clear, G)
+        } else if ie && self.rf.iff_unknown {
+            // a press sampled earlier with IE clear may have been held: follow the SUT
             self.rf.iff = false;
+            self.rf.iff_unknown = false;
+            if self.sut_took_interrupt() {
+                self.rf.enter_interrupt(info);
+                self.entries += 1;
+            }
+        } else if !ie && (known_set || self.rf.iff_unknown) {
+            // sampled with IE clear: forgotten or held - not specified
+            self.rf.iff = true;
+            self.rf.iff_unknown = true;
+        } else {
+            self.rf.iff = false;
+            self.rf.iff_unknown = false;
         }
         Ok(())
+    }
+
+    /// Observation used only where the properties leave the outcome open: does the SUT sit at the
+    /// boundary that follows an interrupt entry (PC = 2, two bytes pushed)?
+    fn sut_took_interrupt(&self) -> bool {
+        let c = self.sut.registers().content();
+        c[3] == 2 && c[5] == self.rf.sp.wrapping_sub(2) && !(self.rf.r[3] == 2)
     }
 
     fn check_presses(&self, info: &StepInfo) -> Result<(), Violation> {
@@ -322,6 +355,12 @@ impl LockStep {
                 if info.halted { format!("halts ({:?})", self.rf.state) } else { "says this opcode never completes".into() }
             );
             return Err(self.v(if info.halted { "halt-missed" } else { "undefined-completes" }, d));
+        }
+        if TRACE.load(std::sync::atomic::Ordering::Relaxed) {
+            eprintln!(
+                "  B edge={} {} steps={} sut={:02X?} ref=[{:02X?} fr={:02X} sp={:02X}] iff={} presses={:?}",
+                b, Self::desc(&info), info.steps, &self.sut.registers().content()[..6], self.rf.r, self.rf.fr, self.rf.sp, self.rf.iff, self.presses
+            );
         }
         self.check_presses(&info)?;
         if self.resync_next || info.unspecified {
